@@ -35,7 +35,7 @@ const (
 	mScribble = 11 // the caller writes elem(B) into position A of the arena
 	mForeign  = 12 // a Sorted of ANOTHER element type (strings; ints when the case is about strings) with A mod 5000 values, kept alive (at most 3)
 	mDrop     = 13 // the harness forgets object O (it becomes garbage) unless it is the only one
-	mBurst    = 14 // 1 + R mod 2^17 times in a row: NewSorted over the view (Off A, N B mod 64, no spare), each result checked; the last one is kept like mNew's
+	mBurst    = 14 // 1 + R mod 2^17 times in a row: NewSorted over the view (Off A [+ j*S for the j-th], N B mod 64, no spare), each result checked; the last one is kept like mNew's
 	nMOps     = 15
 )
 
@@ -532,8 +532,12 @@ func runMulti[E comparable](c MCase, e env[E]) pbt.Outcome {
 			}
 			var firstObs []E // a result that passed the full check: an identical one needs no second look
 			bo := &mobj[E]{name: "(burst)"}
+			off0 := v.Off
 			for j := 0; j < reps; j++ {
 				// the intermediate ones are checked on their own and dropped at once
+				if op.S != 0 { // a sliding view: every construction sees other data than its predecessor
+					v.Off = mod(off0+j*op.S, L-v.N+1)
+				}
 				bo.s = e.build(arena[v.Off : v.Off+v.N : v.Off+v.N])
 				obs, m := read(bo, burstBuf)
 				burstBuf = obs
@@ -907,13 +911,27 @@ func pairCases(tier string, yield func(MCase) bool) {
 		if !yield(c) {
 			return
 		}
+		// the same with a sliding view: the constructions 2^16-1, 2^16 and 2^16+1 calls after a given one see the same
+		// data again (the offsets repeat with period L-N+1 = 2^13 or 2^12), every other one in between sees other data
+		if tier != "thorough" && i >= 2 {
+			continue
+		}
+		n := 3 + 14*(i%2)
+		L := 1<<(13-i%2) + n - 1
+		c = MCase{Order: o, Vals: 5000, Procs: enumProcs[(i+3)%len(enumProcs)], Init: []int{}, Arena: []Fill{{N: L, A: 3, S: 7919}},
+			Objs: []View{{Off: 0, N: 40}, {Off: 20, N: 100}},
+			Ops: []MOp{{K: mBurst, A: 5, B: n, S: 1, R: 1<<16 + 300}, {O: 0, K: mSweep}, {O: 1, K: mSweep}, {O: 2, K: mSweep},
+				{K: mBurst, A: 9, B: n, S: 7, R: 1<<16 + 2}, {O: 0, K: mAdd, A: 3}, {K: mNew, A: 0, B: 100}, {O: 3, K: mSweep}}}
+		if !yield(c) {
+			return
+		}
 	}
 }
 
 var specPairs = pbt.Register(&pbt.Spec[MCase]{
 	Property: "C07", Name: "C07.pairs",
 	Rule: "enumerated: " + ruleMulti + "For every first size n1 in {0,1,2,8,15,16,17,18,20,21,24} and {p-1,p,p+1,1.5p : p = 32..4096} (thorough: ..16384) and every second size n2 in {n1, n1-1, n1+1, n1/2, n1/2+1, 17, 33, 2*n1, 3}, with two orders/value patterns each: " +
-		"A over n1 values, B over n2 values, (every third case: a Sorted of another element type), kept Strings, alternating Adds/Removes/Sweeps on A and B, C over n2 values, D over n1 values, (every third case) GC, the caller overwrites the middle of A's view, E over exactly A's view, (every third case) double GC, F over n2 values replacing one of the five, sweeps of all five; GOMAXPROCS 4 (process default)/1/2/3/5/6/7/12/16 in rotation; plus four cases (thorough eight) with 2^16+301 NewSorted calls in a row over 3 or 17 values while two other objects are alive. " + ruleMultiNT,
+		"A over n1 values, B over n2 values, (every third case: a Sorted of another element type), kept Strings, alternating Adds/Removes/Sweeps on A and B, C over n2 values, D over n1 values, (every third case) GC, the caller overwrites the middle of A's view, E over exactly A's view, (every third case) double GC, F over n2 values replacing one of the five, sweeps of all five; GOMAXPROCS 4 (process default)/1/2/3/5/6/7/12/16 in rotation; plus four cases (thorough eight) with 2^16+301 NewSorted calls in a row over 3 or 17 values while two other objects are alive, and two (thorough eight) in which the view of those calls slides over an arena of 2^13 or 2^12 positions (stride 1, then stride 7), so that a construction sees other data than the ones before it and the same data as the one 2^13 (2^12) calls earlier. " + ruleMultiNT,
 	Enum: func(shard, shards int, tier string, yield func(MCase) bool) {
 		i := 0
 		pairCases(tier, func(c MCase) bool {
